@@ -8,11 +8,11 @@ import engine
 base = sys.argv[1]
 ALL = ["C%02d" % i for i in range(1, 19)]
 if len(sys.argv) > 3:
-    # one process per patch, 8 at a time
+    # one process per patch, 14 at a time
     from concurrent.futures import ThreadPoolExecutor
     def one(patch):
         return subprocess.run([sys.executable, os.path.abspath(__file__), base, patch], stdout=subprocess.PIPE, stderr=subprocess.STDOUT, text=True).stdout
-    with ThreadPoolExecutor(8) as ex:
+    with ThreadPoolExecutor(14) as ex:
         for out in ex.map(one, sys.argv[2:]):
             sys.stdout.write(out)
             sys.stdout.flush()
